@@ -59,6 +59,15 @@ func (s *c01) Build(w *World) {
 		w.Prof.FaultPm = map[string]int{"commit": 100}
 		w.Prof.FaultBudget = 2
 	}
+	if rqPm > 0 && t.Chance(250) {
+		// disk trouble at the requestor: a local read may stop half way (short read, or an error in mid-stream)
+		s.a.Store.ReadFaults = []string{"short", "torn"}
+		if w.Prof.FaultPm == nil {
+			w.Prof.FaultPm = map[string]int{}
+		}
+		w.Prof.FaultPm["load"] = 250
+		w.Prof.FaultBudget = 3
+	}
 	for _, c := range s.dag.Order {
 		if t.Chance(rqPm) {
 			s.rq[c] = true
